@@ -68,7 +68,11 @@ def rule_test_and_set(ctx: Ctx, out: Collector) -> None:
                         f'from the mark by a suspension point: two requests interleave there and both execute the node',
                         path_text(g, res[0]))
     if n == 0:
-        raise AnalysisError('no processed-mark found (ON-1 anchor vanished)')
+        has_body = any(ctx.roles.body(ev) in ('process', 'executor') for g in ctx.run_graphs().values() for ev in g.events('call'))
+        if not has_body:
+            raise AnalysisError('no processed-mark and no node invocation found (ON-1 anchors vanished)')
+        out.bad('ON-1', 'run path::processed-mark before node code', '', 'node code is invoked on the run path but no node is ever marked '
+                'as processed: nothing prevents a second request from executing it again')
 
 
 def _body_node_key(ctx: Ctx, ev: Ev):
@@ -246,3 +250,51 @@ def rule_owner_only_publish(ctx: Ctx, out: Collector) -> None:
                     f'hidden by a re-iteration - and consumers are invoked with it', path_text(g, res[0]))
     if n == 0:
         raise AnalysisError('no publish of a node value found (RD-5 anchor vanished)')
+
+
+def rule_publish_atomic(ctx: Ctx, out: Collector) -> None:
+    """PB-1: between the moment a node's value is obtained from its execution and the moment it is published
+    there is no suspension point.  In between other tasks run: a re-iteration started for a Recurrent marker
+    re-arms (hides) the node, and the late publish would un-hide the stale marker / value."""
+    n = 0
+    results = {}
+    for fid, g in ctx.run_graphs().items():
+        for pb in publishes(ctx, g, ['node_results']):
+            if not _value_from_body(ctx, pb):
+                continue
+            # the call that produced the value
+            e, i = sym.resolve_value(ctx.p, pb.ev.info['value'], pb.ev.inst)
+            call = e.value if isinstance(e, ast.Await) else e
+            if not isinstance(call, ast.Call):
+                continue
+            rets = [ev for ev in g.events('ret') if ev.node is call and ev.inst is i]
+            if not rets:
+                continue
+            n += 1
+            fwd = reach(g, [r.id for r in rets], labels=EXC_LABELS)
+            # backward reachability to the publish
+            back = {pb.ev.id}
+            stack = [pb.ev.id]
+            while stack:
+                x = stack.pop()
+                for m, lab in g.pred.get(x, ()):
+                    if lab in EXC_LABELS and m not in back:
+                        back.add(m)
+                        stack.append(m)
+            between = [g.evs[m] for m in sorted(fwd & back) if g.evs[m].kind == 'await']
+            cons = ctx.construct(pb.home) + ' [value published without suspension after it was obtained]'
+            prev = results.get(cons)
+            if prev is None or (not prev[0] and between):
+                results[cons] = (between, pb, g)
+    for cons, (between, pb, g) in sorted(results.items()):
+        if not between:
+            out.ok('PB-1', cons, pb.home.where(), 'no await between obtaining the value and publishing it')
+        else:
+            a = between[0]
+            out.bad('PB-1', cons, pb.home.where(),
+                    f'between obtaining the node value and publishing node_results[{sym.show(pb.key)}] the task can be suspended '
+                    f'({a.text(60)} at {a.where()}): the re-iteration task spawned for a Recurrent marker re-arms the node first, '
+                    f'and the late publish un-hides the stale marker - iterations are consumed by stale results / consumers see a '
+                    f'superseded value', [f'{a.where()} [await] {a.text()}'])
+    if n == 0:
+        raise AnalysisError('no publish of an executed node value found (PB-1 anchor vanished)')
